@@ -107,6 +107,10 @@ class C02(Prop):
                 item = {"k": "custom", "pdu": "response", "varbinds": vbs}
                 if rng.random() < 0.2:
                     item["opts"] = {"w": rng.choice([0, 2, 3, gen.len_width(rng)]), "vw": rng.choice([0, 2, 3, gen.len_width(rng)])}
+                if rng.random() < 0.04 and not (sess.get("user") or {}).get("priv"):
+                    # a reply that fills the client's receive buffer to the last octet (or misses by one or two)
+                    item["varbinds"].append([gen.oid_text(name(rng)), ["octets", "5a" * 3000]])
+                    item["fit_total"] = rng.choice([4080, 4080, 4079, 4078, 4000])
                 if rng.random() < 0.25:
                     item["rewrite"] = {"widths": gen.widths(rng, sess["version"] == "v3")}
                 if sess["version"] == "v3" and rng.random() < 0.15:
